@@ -65,6 +65,19 @@ void harness(void)
             for (i = 0; i < (int)rank; i++)
                 H4V_ASSERT(cdef.chunk_lengths[i] == (all_chunk ? g_len[i] : o_len[i]), "C18.K3.chunklen: chunk lengths differ from the requested ones");
         }
+        /* chunking applied by this request AND a coder requested for the object: the chunk definition handed
+         * to the library carries the coder and its parameter */
+        if (want_chunk) {
+            int want_t = all_comp ? g_ctype : ((MATCH && o_ctype >= 0) ? o_ctype : -1), want_i = all_comp ? g_info : o_info;
+            if (want_t > 0) {
+                H4V_ASSERT(flags == (HDF_CHUNK | HDF_COMP), "C18.K3.chunkcomp: chunking and compression both requested but not both applied");
+                H4V_ASSERT(cdef.comp.comp_type == (comp_coder_t)want_t, "C18.K3.chunkdef.type: coder in the chunk definition differs from the requested one");
+                if (want_t == COMP_CODE_DEFLATE)
+                    H4V_ASSERT(cdef.comp.cinfo.deflate.level == want_i, "C18.K3.chunkdef.level: deflate level in the chunk definition differs from the requested one");
+                if (want_t == COMP_CODE_SKPHUFF)
+                    H4V_ASSERT(cdef.comp.cinfo.skphuff.skp_size == want_i, "C18.K3.chunkdef.skip: skipping size in the chunk definition differs from the requested one");
+            }
+        }
         if (all_comp) {
             H4V_ASSERT(ctype == (comp_coder_t)g_ctype && info == g_info, "C18.K3.comp.global: global compression request not applied as given");
         }
